@@ -37,9 +37,11 @@ ASSUMPTIONS = [
 ]
 
 NAMES3 = ('a', 'b', 'c')
+OWN_NAMES = True     # replays of this module spell their own names
 
 
-HIST_ALPHA = {'build': 8, 'to_expr': 16, 'add_expr': 12, 'repeat': 6,
+HIST_ALPHA = {'bad': (1, [47, 65535, 65535]), 'full': 2,
+              'build': 8, 'to_expr': 16, 'add_expr': 12, 'repeat': 6,
               'churn': 5, 'drop': 8, 'gc': 6, 'gc_roots': 2, 'swap': 3,
               'sift': 1, 'reorder_to': 1, 'apply': 3, 'declare': 1,
               'undeclare': 2, 'quantify': 1}
@@ -61,7 +63,8 @@ def plan(tier, seed):
                           cfgs=cfgs,
                           examples=1200 if tier == 'thorough' else 300,
                           min_len=10, max_len=40))
-    for order in fix.orders(3):
+    import itertools as _it
+    for order in _it.permutations(NAMES3):
         specs.append(dict(kind='pairs', order=list(order), seed=seed,
                           triples=(400 if tier == 'thorough' else 60)))
     ks = 12 if tier == 'thorough' else 5
@@ -459,6 +462,7 @@ def replay_into(case, out):
         out.guard(case, body)
         out.count(1, 0)
     elif k == 'roundtrip':
+        fix.modernize(case)
         run_roundtrip({kk: case[kk] for kk in
                        ('kind', 'n', 'order', 'part', 'parts', 'seed')}, out)
     else:
